@@ -191,6 +191,12 @@ struct RouteEnt
   Addr a;
   SimkRoute r;
 };
+struct ConnectFault
+{
+  uint16_t port;
+  std::vector<int> script; // outcome of the k-th connect() to this port (0 = normal), consumed in order
+  size_t next = 0;
+};
 
 struct State
 {
@@ -199,6 +205,7 @@ struct State
   uint16_t nextEphemeral = 40000;
   uint64_t nextConnId = 1;
   std::vector<RouteEnt> routes;
+  std::vector<ConnectFault> connectFaults;
   int udpDropped = 0;
   bool inited = false;
 };
@@ -784,6 +791,14 @@ void simk_route(const char *ip, uint16_t port, SimkRoute r)
   e.r = r;
   ST->routes.push_back(e);
 }
+void simk_connect_script(uint16_t port, const int *outcomes, int n)
+{
+  ensure();
+  ConnectFault cf;
+  cf.port = port;
+  cf.script.assign(outcomes, outcomes + n);
+  ST->connectFaults.push_back(cf);
+}
 void simk_set_rcvbuf(int fd, int bytes)
 {
   if (Fd *f = get(fd))
@@ -1318,9 +1333,18 @@ extern "C"
     assignLocal(*f, dst.family, nullptr);
     f->peerAddr = dst;
     int l = findListener(dst);
-    if (l < 0)
+    SimkRoute injected = SimkRoute(0);
+    for (auto &cf : ST->connectFaults)
+      if (cf.port == dst.port)
+      {
+        if (cf.next < cf.script.size())
+          injected = SimkRoute(cf.script[cf.next]);
+        cf.next++;
+        break;
+      }
+    if (l < 0 || injected)
     {
-      SimkRoute r = routeFor(dst);
+      SimkRoute r = injected ? injected : routeFor(dst);
       if (r == SIMK_REFUSE_NOW)
       {
         errno = ECONNREFUSED;
